@@ -402,6 +402,8 @@ package dmap
 //@   ensures #condition [C15] internal: cmd.NX == e.putConfig.HasNX && cmd.XX == (e.putConfig.HasXX && !e.putConfig.HasNX)
 //@   ensures #expiry_px [C15] internal: cmd.PX == ite(!e.putConfig.HasEX && e.putConfig.HasPX, e.putConfig.PX / 1000000, 0)
 //@   ensures #expiry_pxat [C15] internal: cmd.PXAT == ite(!e.putConfig.HasEX && !e.putConfig.HasPX && !e.putConfig.HasEXAT && e.putConfig.HasPXAT, e.putConfig.PXAT / 1000000, 0)
+//@   ensures #expiry_ex_value [C15] internal: cmd.EX == ite(e.putConfig.HasEX, float64(e.putConfig.EX) / float64(1000000000), float64(0))
+//@   ensures #expiry_exat_value [C15] internal: cmd.EXAT == ite(!e.putConfig.HasEX && !e.putConfig.HasPX && e.putConfig.HasEXAT, float64(e.putConfig.EXAT) / float64(1000000000), float64(0))
 //@   ensures #expiry_ex [C15] internal: (cmd.EX != 0) ==> e.putConfig.HasEX
 //@   ensures #expiry_exat [C15] internal: (cmd.EXAT != 0) ==> !e.putConfig.HasEX && !e.putConfig.HasPX && e.putConfig.HasEXAT
 //@   ensures #payload [C15] internal: cmd.DMap == e.dmap && cmd.Key == e.key && cmd.Value == e.value
@@ -428,6 +430,7 @@ package dmap
 //@                pc.HasEXAT == (putCmd.EX == 0 && putCmd.PX == 0 && putCmd.EXAT != 0) &&
 //@                pc.HasPXAT == (putCmd.EX == 0 && putCmd.PX == 0 && putCmd.EXAT == 0 && putCmd.PXAT != 0)
 //@   ensures #expiry_ms [C15 C09] internal: (pc.HasPX ==> pc.PX == int64(putCmd.PX * 1000000)) && (pc.HasPXAT ==> pc.PXAT == int64(putCmd.PXAT * 1000000))
+//@   ensures #expiry_seconds [C15 C09] internal: (pc.HasEX ==> pc.EX == int64(putCmd.EX * float64(1000000000))) && (pc.HasEXAT ==> pc.EXAT == int64(putCmd.EXAT * float64(1000000000)))
 //@   ensures #payload [C15] internal: e.dmap == putCmd.DMap && e.key == putCmd.Key && e.value == putCmd.Value && e.putConfig != nil
 
 // C05: a DMap cannot be opened below the member-count quorum.
@@ -542,3 +545,21 @@ package dmap
 //@   requires #args: len(cmd.Args) >= 1
 //@   requires #parts: s.parts() && s.primary.count > 0 && s.backup.count > 0
 //@   ensures #routes_every_key [C15] internal: err == nil ==> routed_deletes == old(routed_deletes) + count
+
+// C09: Incr/Decr keep the expiry of the key: the remaining life time of the value just read is handed to the
+// write as a PX option computed from a clock reading t taken during the call (ttl*1e6 == PX + t).
+//@ func (dm *DMap) loadCurrentAtomicInt(e *env) (int, int64, error)
+//@   props C09
+//@   trusted
+//@   flag clock
+//@   modifies EvictedTotal.counter
+
+//@ func (dm *DMap) atomicIncrDecr(cmd string, e *env, delta int) (int, error)
+//@   props C09
+//@   flag clock
+//@   flag wired 3
+//@   flag skip nil
+//@   requires #env: e != nil && e.putConfig != nil && !e.putConfig.HasEX && !e.putConfig.HasPX && !e.putConfig.HasEXAT && !e.putConfig.HasPXAT && !e.putConfig.OnlyUpdateTTL
+//@   ensures #keeps_expiry [C09] internal: result.1 == nil && ttl != 0 && 0 <= ttl && ttl < 4611686018427 ==> e.putConfig.HasPX && !e.putConfig.HasEX && !e.putConfig.OnlyUpdateTTL &&
+//@                ttl * 1000000 - now() <= e.putConfig.PX && e.putConfig.PX <= ttl * 1000000 - old(now())
+//@   ensures #no_expiry_stays_none [C09] internal: result.1 == nil && ttl == 0 ==> !e.putConfig.HasPX && !e.putConfig.HasEX && !e.putConfig.HasEXAT && !e.putConfig.HasPXAT
